@@ -55,7 +55,7 @@ REQUIRED = dict(
               'aligned:pressure', 'contract-fired']
     + ['contract:scale.' + k for k in _HYDRO] + ['contract:model.' + k for k in _HYDRO],
     classes=['pressure:simple', 'pressure:array', 'pressure:file', 'nlayers:1', 'nlayers:2', 'nlayers:100', 'T:layers',
-             'T:isothermal', 'T:npoint', 'T:guillot', 'units:km', 'planet-given-in:Rearth', 'planet-given-in:Mearth', 'planet-given-in:km', 'scale:irregular-levels', 'stored:hdf5', 'stored:recorded',
+             'T:isothermal', 'T:npoint', 'T:guillot', 'units:km', 'atmosphere:extended-beyond-two-radii', 'planet-given-in:Rearth', 'planet-given-in:Mearth', 'planet-given-in:km', 'scale:irregular-levels', 'stored:hdf5', 'stored:recorded',
              'perturb:temperature', 'perturb:abundance', 'perturb:pressure', 'perturb:top-layer', 'perturb:bottom-layer',
              'via-setter', 'pressure:array-with-unordered-derived-levels', 'T-dtype:i', 'T-dtype:f',
              'T:integer-valued-layers', 'shared-planet:earlier-model-rejudged', 'model:evaluated-then-rejudged',
@@ -363,8 +363,13 @@ def wl_scale(ctx, rng):
             T = np.round(T).astype(int)      # integer dtype: every returned array must still be real-valued
         mu = rng.uniform(2.0, 44.0, n) * AMU if rng.random() < 0.7 else np.full(n, rng.uniform(2.0, 44.0) * AMU)
         planet = Planet(planet_mass=pm, planet_radius=pr)
-        if L.hydro_domain(T, lev, mu) is None and L.reference(T, lev, mu, planet)[4]:
-            break
+        if L.hydro_domain(T, lev, mu) is None:
+            ref_ = L.reference(T, lev, mu, planet)
+            if ref_[4]:
+                break
+            if ref_[0] is not None and np.all(np.isfinite(ref_[0])) and np.all(ref_[1] > 0) \
+                    and ref_[0][-1] < L.JUDGE_HEIGHT_RADII * planet.fullRadius and rng.random() < 0.5:
+                break            # a loosely bound, extended atmosphere: the recursion is judged there too
         ctx.event('domain-skip:atmosphere-not-bound')
     else:
         raise RuntimeError('generator could not draw a bound atmosphere')
